@@ -19,7 +19,7 @@ let res_sx = function
   | Model.ROk (l, t, hit) -> L [A "ok"; zout l; zout t; A (if hit then "1" else "0")]
   | Model.RErr e -> L [A "err"; A (err_name e)]
 let label_name = function
-  | Model.LIk -> "ik" | Model.LRev -> "rev" | Model.LBal -> "bal" | Model.LVol -> "vol" | Model.LTx -> "tx" | Model.LAdv -> "adv"
+  | Model.LIk -> "ik" | Model.LRev -> "rev" | Model.LBal -> "bal" | Model.LBal2 -> "bal2" | Model.LVol -> "vol" | Model.LTx -> "tx" | Model.LAdv -> "adv"
   | Model.LLog -> "log" | Model.LCommit -> "commit" | Model.LRollback -> "rollback"
 let status_name = function Model.SDone -> "done" | Model.SBlocked -> "blocked" | Model.SDeadlock -> "deadlock"
 let istr n = A (string_of_int (int_of_nat n))
